@@ -89,11 +89,11 @@ Proof.
 Qed.
 
 (* ------------------------------------------------------------------ literals over R *)
-Lemma lit8 h : Rlit 1 (-8) h = / 100000000.
+Lemma lit8 : Rlit 1 (-8) = / 100000000.
 Proof. unfold Rlit. replace (Z.pow_pos 10 8) with 100000000%Z by reflexivity. lra. Qed.
-Lemma lit6 h : Rlit 1 (-6) h = / 1000000.
+Lemma lit6 : Rlit 1 (-6) = / 1000000.
 Proof. unfold Rlit. replace (Z.pow_pos 10 6) with 1000000%Z by reflexivity. lra. Qed.
-Lemma lit15 h : Rlit 1 (-15) h = / 1000000000000000.
+Lemma lit15 : Rlit 1 (-15) = / 1000000000000000.
 Proof. unfold Rlit. replace (Z.pow_pos 10 15) with 1000000000000000%Z by reflexivity. lra. Qed.
 
 Definition theta8 : R := / (1 + / 100000000).      (* exit of cel_iter: g - qc < qc * 1e-8  <->  qc / g > theta8 *)
@@ -159,7 +159,7 @@ Qed.
 Lemma cel_iter0_B0 s : inv_iter 0 s -> cel_iter0_cond NumR s = false.
 Proof.
   destruct s as [[[[[[qc p] g] cc] ss] em] kk]. intros (Hq & Hqg & Hp & He & Hk & Hr).
-  unfold cel_iter0_cond. simpl. apply iter_exit_gen; auto; lra.
+  unfold cel_iter0_cond. simpl. apply iter_exit_gen; auto using lit8.
 Qed.
 
 Lemma cel_iter0_BS N s : inv_iter (S N) s -> inv_iter N (cel_iter0_step NumR s).
@@ -173,7 +173,7 @@ Qed.
 Lemma cel_iterv_B0 s : inv_iter 0 s -> cel_iterv_cond NumR s = false.
 Proof.
   destruct s as [[[[[[qc p] g] cc] ss] em] kk]. intros (Hq & Hqg & Hp & He & Hk & Hr).
-  unfold cel_iterv_cond. simpl. apply iter_exit_gen; auto; lra.
+  unfold cel_iterv_cond. simpl. apply iter_exit_gen; auto using lit8.
 Qed.
 
 Lemma cel_iterv_BS N s : inv_iter (S N) s -> inv_iter N (cel_iterv_step NumR s).
@@ -305,7 +305,7 @@ Qed.
 Lemma cel0_B0 s : inv_cel 0 s -> cel0_cond NumR s = false.
 Proof.
   destruct s as [[[[[[k kk] cc] ss] pp] g] em]. intros (Hq & Hqg & Hp & He & Hk & Hr).
-  unfold cel0_cond. simpl. apply cel_exit_gen; auto; lra.
+  unfold cel0_cond. simpl. apply cel_exit_gen; auto using lit6.
 Qed.
 
 Lemma cel0_BS N s : inv_cel (S N) s -> inv_cel N (cel0_step NumR s).
@@ -365,7 +365,8 @@ Theorem cel_iter0_terminates_explicit : forall (k : nat) (qc p g cc ss em kk : R
   exists n v, (n <= 27 + k)%nat /\ cel_iter0 NumR (27 + k) (qc, p, g, cc, ss, em, kk) = Done n v.
 Proof.
   intros k qc p g cc ss em kk Hq Hqg Hp He Hk Hr. apply cel_iter0_terminates_lemma. repeat split; auto.
-  pose proof (thr_theta8_27 k) as Ht. unfold thr in *. assert (0 < g) by lra. nra.
+  pose proof (thr_theta8_27 k) as Ht. change ((/ 2) ^ (2 ^ k)) with (thr (/ 2) k) in Hr.
+  assert (0 < g) by lra. nra.
 Qed.
 
 Definition iter_start_ok (st : st7R) : Prop :=
@@ -475,8 +476,8 @@ Proof.
   set (r0 := Rabs (d / 2)) in *.
   assert (Hgap : z <> 0 \/ r <> r0).
   { apply andb_false_iff in Hm2. destruct Hm2 as [H|H].
-    - right. unfold Rltb in H. destruct (Rlt_dec (Rabs (r - r0)) (1 / 1000000000000000 * r0)) as [|Hn]; [discriminate|].
-      intros E. apply Hn. rewrite E. replace (r0 - r0) with 0 by ring. rewrite Rabs_R0. lra.
+    - right. unfold Rltb in H. destruct (Rlt_dec _ _) as [|Hn]; [discriminate|].
+      intros E. apply Hn. rewrite E. replace (r0 - r0) with 0 by ring. rewrite Rabs_R0, lit15. lra.
     - left. apply Reqb_false_iff in H. exact H. }
   unfold circle_mid, cir_core_in, circle_start1, circle_start2, iter_start_ok, cw_r0, w, sq. simpl.
   fold r0.
@@ -550,11 +551,11 @@ Proof.
   { unfold cyl_on_edge, isclose15, i in He. simpl in He.
     apply andb_false_iff in He. destruct He as [H|H].
     - left. intros E. subst r. unfold Rleb in H.
-      destruct (Rle_dec (Rabs (1 - 1)) (0 + 1 / 1000000000000000 * Rabs 1)) as [|Hn]; [discriminate|].
-      apply Hn. replace (1 - 1) with 0 by ring. rewrite Rabs_R0, Rabs_R1. lra.
+      destruct (Rle_dec _ _) as [|Hn]; [discriminate|].
+      apply Hn. replace (1 - 1) with 0 by ring. rewrite Rabs_R0, Rabs_R1, lit15. lra.
     - right. intros E. rewrite E in H. unfold Rleb in H.
-      destruct (Rle_dec (Rabs (z0 - z0)) (0 + 1 / 1000000000000000 * Rabs z0)) as [|Hn]; [discriminate|].
-      apply Hn. replace (z0 - z0) with 0 by ring. rewrite Rabs_R0. pose proof (Rabs_pos z0). lra. }
+      destruct (Rle_dec _ _) as [|Hn]; [discriminate|].
+      apply Hn. replace (z0 - z0) with 0 by ring. rewrite Rabs_R0, lit15. pose proof (Rabs_pos z0). nra. }
   unfold cyl_mid_of, i, sq. simpl.
   assert (Hp2 : 0 < (1 + r) * (1 + r)) by nra.
   assert (A0 : 0 <= (z - z0) * (z - z0)) by apply Rle_0_sqr.
@@ -618,7 +619,7 @@ Example cylinder_guards_nonvacuous : cyl_on_edge NumR (Build_cyl_in NumR 1 1 2) 
 Proof.
   split; [|lra]. unfold cyl_on_edge, isclose15. simpl.
   apply andb_false_iff. right. unfold Rleb.
-  destruct (Rle_dec (Rabs (Rabs 2 - 1)) (0 + 1 / 1000000000000000 * Rabs 1)) as [H|]; auto.
-  exfalso. rewrite Rabs_R1 in H. rewrite (Rabs_right 2) in H by lra.
+  destruct (Rle_dec _ _) as [H|]; auto.
+  exfalso. rewrite Rabs_R1, lit15 in H. rewrite (Rabs_right 2) in H by lra.
   replace (2 - 1) with 1 in H by ring. rewrite Rabs_R1 in H. lra.
 Qed.
